@@ -332,14 +332,19 @@ func (h *ipv6HeaderTLVOption) serializeTo(data []byte, fixLengths bool, dryrun b
 }
 
 func decodeIPv6HeaderTLVOption(data []byte, df gopacket.DecodeFeedback) (h *ipv6HeaderTLVOption, _ error) {
-	if len(data) < 2 {
+	if len(data) < 1 {
 		df.SetTruncated()
 		return nil, errors.New("IPv6 header option too small")
 	}
 	h = &ipv6HeaderTLVOption{}
 	if data[0] == 0 {
+		// Pad1 is a single octet
 		h.ActualLength = 1
 		return
+	}
+	if len(data) < 2 {
+		df.SetTruncated()
+		return nil, errors.New("IPv6 header option too small")
 	}
 	h.OptionType = data[0]
 	h.OptionLength = data[1]
